@@ -40,6 +40,8 @@ Definition tok := nat.
 
 Definition t_inline (i : nat) : tok := 2 * i.        (* member i written with its content *)
 Definition t_include (i : nat) : tok := 2 * i + 1.   (* member i written as {"@include": filename} *)
+Definition t_sep : tok := 98.   (* end of one call, when a thread makes several *)
+Definition t_err : tok := 99.   (* the call returned Err *)
 
 Inductive cmd : Type :=
 | Yield
@@ -49,6 +51,9 @@ Inductive cmd : Type :=
 | IfMode (a n : list cmd)
 | IfChanged (i : nat) (body : list cmd)
 | ClearChanged (i : nat)
+| EndCall  (* the current call returns Ok; the thread goes on with its next call *)
+| Fail     (* the current call returns Err (a stand-off file could not be written): what the call
+              had put together is dropped, the thread goes on with its next call *)
 | Abort.   (* model fuel exhausted (nesting of stand-off flushes deeper than the fuel) *)
 
 Record thread := mkT { stk : list cmd; tmd : mode; out : list tok; fout : list (nat * tok); dead : bool }.
@@ -69,6 +74,25 @@ Fixpoint upd {X : Type} (i : nat) (x : X) (l : list X) : list X :=
   | [], _ => []
   | _ :: r, 0 => x :: r
   | y :: r, S i' => y :: upd i' x r
+  end.
+
+Definition is_endcall (c : cmd) : bool := match c with EndCall => true | _ => false end.
+
+(* the rest of the stack after the current call *)
+Fixpoint next_call (s : list cmd) : list cmd :=
+  match s with
+  | [] => []
+  | EndCall :: k => k
+  | _ :: k => next_call k
+  end.
+
+(* what the earlier calls of the thread returned (everything up to the last separator) *)
+Fixpoint earlier_calls (o : list tok) : list tok :=
+  match o with
+  | [] => []
+  | x :: r =>
+      if existsb (Nat.eqb t_sep) r then x :: earlier_calls r
+      else if Nat.eqb x t_sep then [x] else []
   end.
 
 Definition branch (m : mode) (a n : list cmd) : list cmd :=
@@ -92,6 +116,10 @@ Definition step1 (sh : bool) (m : mode) (fl : list bool) (t : thread) : mode * l
       | IfMode a n => (m, fl, mkT (branch (cur_mode sh m t) a n ++ k) (tmd t) (out t) (fout t) (dead t))
       | IfChanged i b => (m, fl, mkT ((if flag i fl then b else []) ++ k) (tmd t) (out t) (fout t) (dead t))
       | ClearChanged i => (m, clear i fl, mkT k (tmd t) (out t) (fout t) (dead t))
+      | EndCall => (m, fl, mkT k (tmd t) (out t ++ [t_sep]) (fout t) (dead t))
+      | Fail => (m, fl, mkT (next_call k) (tmd t)
+                        (earlier_calls (out t) ++ t_err :: (if existsb is_endcall k then [t_sep] else []))
+                        (fout t) (dead t))
       | Abort => (m, fl, mkT [] (tmd t) (out t) (fout t) true)
       end
   end.
@@ -116,7 +144,7 @@ Definition finished (t : thread) : bool := match stk t with [] => true | _ => fa
    performs the action it is blocked in front of and continues with its local
    actions up to the next yield site ---- *)
 Definition is_local (c : cmd) : bool :=
-  match c with Emit _ | FEmit _ _ | Abort => true | _ => false end.
+  match c with Emit _ | FEmit _ _ | EndCall | Fail | Abort => true | _ => false end.
 
 Fixpoint advance (sh : bool) (n : nat) (i : nat) (st : state) : state :=
   match n with
@@ -147,7 +175,8 @@ Definition run_coarse (sh : bool) (sched : list nat) (st : state) : state :=
 Inductive fkind :=
 | NoFile   (* inline: filename = None *)
 | Txt      (* stand-off plain text file (resource whose filename does not end in .json) *)
-| Json.    (* stand-off STAM JSON file (dataset, or resource with a .json filename) *)
+| Json     (* stand-off STAM JSON file (dataset, or resource with a .json filename) *)
+| JsonBroken. (* stand-off STAM JSON file that cannot be written (its directory is gone) *)
 
 Definition emit (sink : option nat) (t : tok) : cmd :=
   match sink with None => Emit t | Some f => FEmit f t end.
@@ -176,6 +205,10 @@ Fixpoint ser_member (fuel : nat) (sink : option nat) (i : nat) (k : fkind) : lis
                   | S f => SetMode NoInc :: ser_member f (Some i) i k ++ [SetMode Allow; ClearChanged i]
                   end)]
               [emit sink (t_inline i)]]
+  | JsonBroken =>
+      (* to_json_file: set NoInclude; open_file_writer fails; set AllowInclude (since 7e4eec1); Err *)
+      [IfMode [emit sink (t_include i); IfChanged i [SetMode NoInc; SetMode Allow; Fail]]
+              [emit sink (t_inline i)]]
   end.
 
 Fixpoint ser_members (fuel : nat) (i : nat) (mem : list fkind) : list cmd :=
@@ -192,8 +225,9 @@ Inductive op :=
 | OpMemberPlain (i : nat)     (* the inherent member.to_json_string(): no mode write *)
 | OpMemberForeign (i : nat)   (* ToJson::to_json_string(member, &Config::default()): same code path as
                                  OpMemberTrait now that the mode does not live in the Config *)
-| OpMemberThenStore (i : nat). (* two calls on one thread: ToJson::to_json_string(member, store config),
+| OpMemberThenStore (i : nat)  (* two calls on one thread: ToJson::to_json_string(member, store config),
                                  then store.to_json_string(): the mode must have been set back *)
+| OpStoreTwice.               (* store.to_json_string() twice on one thread, each call's result kept *)
 
 Definition kind_of (mem : list fkind) (i : nat) : fkind := nth i mem NoFile.
 
@@ -205,8 +239,9 @@ Definition prog (fuel : nat) (mem : list fkind) (o : op) : list cmd :=
   | OpMemberPlain i => Yield :: ser_member fuel None i (kind_of mem i)
   | OpMemberForeign i => Yield :: SetMode NoInc :: ser_member fuel None i (kind_of mem i) ++ [SetMode Allow]
   | OpMemberThenStore i =>
-      (Yield :: SetMode NoInc :: ser_member fuel None i (kind_of mem i) ++ [SetMode Allow])
-      ++ ser_members fuel 0 mem
+      (Yield :: SetMode NoInc :: ser_member fuel None i (kind_of mem i) ++ [SetMode Allow; EndCall])
+      ++ ser_members fuel 0 mem ++ [EndCall]
+  | OpStoreTwice => Yield :: ser_members fuel 0 mem ++ EndCall :: ser_members fuel 0 mem ++ [EndCall]
   end.
 
 Definition model_fuel : nat := 6.
@@ -248,6 +283,8 @@ Fixpoint sem_cmd (m : mode) (c : cmd) {struct c} : option (list tok * mode) :=
       | _ => None
       end
   | ClearChanged _ => Some ([], m)
+  | EndCall => Some ([t_sep], m)
+  | Fail => None
   | Abort => None
   end.
 
@@ -290,7 +327,7 @@ Definition nw (c0 : list bool) (l : list cmd) : bool := forallb (nw_cmd c0) l.
 
 (* the program never looks at a cell: straight-line code *)
 Definition straight_cmd (c : cmd) : bool :=
-  match c with IfMode _ _ | IfChanged _ _ | Abort | FEmit _ _ => false | _ => true end.
+  match c with IfMode _ _ | IfChanged _ _ | Abort | Fail | FEmit _ _ => false | _ => true end.
 
 Definition straight (l : list cmd) : bool := forallb straight_cmd l.
 
